@@ -754,8 +754,25 @@ func cmpPost(w *world, b vh.Behaviour, i int, a map[string]any, res *vh.Result) 
 }
 
 func replay(b vh.Behaviour, spe int, res *vh.Result) {
-	w := newWorld(spe, res, b.ID)
-	defer w.close()
+	split := false
+	for _, st := range b.Steps {
+		if n := vh.Str(st.Act, "name"); n == "SignCheck" || n == "SignCommit" {
+			split = true
+		}
+	}
+	// behaviours with split signing requests start goroutines that may outlive the behaviour (the dependency's
+	// lock can leave them stuck, or late): they get a database of their own, which is never reused nor closed
+	w := newWorldDB(spe, res, b.ID, !split)
+	if split {
+		w.res = vh.NewResult()
+		defer func() {
+			w.mu.Lock()
+			res.Violations = append(res.Violations, w.res.Violations...)
+			res.Counters["violations"] += w.res.Counters["violations"]
+			w.res = vh.NewResult()
+			w.mu.Unlock()
+		}()
+	}
 	nontrivial := false
 	for i, st := range b.Steps {
 		w.step = i
@@ -884,6 +901,9 @@ func record(path string, seed int64, runs, spe, maxSlot int, res *vh.Result) {
 			ep := clock / spe
 			ev := map[string]any{}
 			x := rng.Intn(100)
+			if s == 0 && rng.Intn(5) != 0 {
+				x = 20 // most executions start by registering the share
+			}
 			switch {
 			case x < 18 && clock < maxSlot:
 				w.net.slot.Store(uint64(clock + 1))
